@@ -5,7 +5,7 @@
    closed under the global context.  The real-number readings (Q2R/Rabs/sqrt) and the
    statement against Flocq's [b64_of_bits] are in Proofs/NumSoundR.v. *)
 From MM Require Import Base.Num Proofs.CheckBase.
-From Coq Require Import Lqa Lia Qpower.
+From Coq Require Import Lqa Lia Qpower Znumtheory.
 Local Open Scope Z_scope.
 
 (* ---------- two_pow ---------- *)
@@ -106,6 +106,45 @@ Proof. rewrite dyadic_two_pow, two_pow_spec. reflexivity. Qed.
 
 Lemma dyadic_opp m e : (dyadic (- m) e == - dyadic m e)%Q.
 Proof. rewrite !dyadic_two_pow, inject_Z_opp. ring. Qed.
+
+(* [dyadic] returns the fraction in lowest terms (so decoded floats are canonical: equal values
+   are equal terms), without computing a gcd *)
+Lemma Qred_coprime n d : Z.gcd n (Zpos d) = 1 -> Qred (n # d) = (n # d)%Q.
+Proof.
+  intro G. unfold Qred.
+  pose proof (Z.ggcd_gcd n (Zpos d)) as H1. pose proof (Z.ggcd_correct_divisors n (Zpos d)) as H2.
+  destruct (Z.ggcd n (Zpos d)) as [g [aa bb]]. cbn [fst snd] in *. rewrite G in H1. subst g.
+  destruct H2 as [Ha Hb]. rewrite Z.mul_1_l in Ha, Hb. subst aa bb. reflexivity.
+Qed.
+Lemma odd_rel_prime_2 z : Z.odd z = true -> rel_prime z 2.
+Proof.
+  intro O. apply Zgcd_1_rel_prime.
+  pose proof (Z.gcd_nonneg z 2) as N. pose proof (Z.gcd_divide_r z 2) as D. pose proof (Z.gcd_divide_l z 2) as L.
+  apply Z.divide_pos_le in D; [|lia].
+  assert (C : Z.gcd z 2 = 0 \/ Z.gcd z 2 = 1 \/ Z.gcd z 2 = 2) by lia.
+  destruct C as [C|[C|C]]; [|exact C|].
+  - apply Z.gcd_eq_0_r in C. discriminate.
+  - rewrite C in L. destruct L as [c ->]. rewrite Z.odd_mul in O. cbn in O. rewrite Bool.andb_false_r in O. discriminate.
+Qed.
+Lemma gcd_odd_pow2 z k : Z.odd z = true -> 0 <= k -> Z.gcd z (2 ^ k) = 1.
+Proof. intros O K. apply Zgcd_1_rel_prime. apply Zpow_facts.rel_prime_Zpower_r; [exact K|apply odd_rel_prime_2; exact O]. Qed.
+
+Lemma dy_reduced z e : Z.odd z = true -> Qred (dy z e) = dy z e.
+Proof.
+  intro O. unfold dy. destruct (0 <=? e) eqn:E.
+  - unfold inject_Z. apply Qred_coprime. apply Z.gcd_1_r.
+  - apply Z.leb_gt in E. apply Qred_coprime. rewrite shiftl_pow2 by lia. rewrite Z.mul_1_l.
+    rewrite Z2Pos.id by (apply Z.pow_pos_nonneg; lia). apply gcd_odd_pow2; [exact O|lia].
+Qed.
+Theorem dyadic_reduced m e : Qred (dyadic m e) = dyadic m e.
+Proof.
+  destruct m as [|p|p].
+  - reflexivity.
+  - destruct (pos_odd_part p 0) as [p' t] eqn:E. rewrite (dyadic_dy_pos _ _ _ _ E).
+    apply pos_odd_part_spec in E. apply dy_reduced. tauto.
+  - destruct (pos_odd_part p 0) as [p' t] eqn:E. rewrite (dyadic_dy_neg _ _ _ _ E).
+    apply pos_odd_part_spec in E. apply dy_reduced. change (Zneg p') with (- Zpos p'). rewrite Z.odd_opp. tauto.
+Qed.
 
 (* ---------- decode_bits against the IEEE-754 binary64 field formula ---------- *)
 Lemma p52 : 2 ^ 52 = 4503599627370496. Proof. reflexivity. Qed.
@@ -260,6 +299,19 @@ Qed.
 
 Lemma float_value_zero s : (float_value s 0 0 == 0)%Q.
 Proof. unfold float_value, float_mant. cbn [Z.eqb inject_Z]. ring. Qed.
+
+(* a decoded finite float is a fraction in lowest terms *)
+Theorem decode_bits_reduced b q : decode_bits b = XFin q -> Qred q = q.
+Proof.
+  rewrite decode_bits_fields. unfold decode_fields. destruct (f_exp b =? 2047); [destruct (f_man b =? 0); discriminate|].
+  intro H. injection H as <-. apply dyadic_reduced.
+Qed.
+(* hence two decoded floats with the same value are the same term *)
+Theorem decode_bits_canonical b1 b2 q1 q2 :
+  decode_bits b1 = XFin q1 -> decode_bits b2 = XFin q2 -> (q1 == q2)%Q -> q1 = q2.
+Proof.
+  intros H1 H2 E. rewrite <- (decode_bits_reduced _ _ H1), <- (decode_bits_reduced _ _ H2). apply Qred_complete. exact E.
+Qed.
 
 (* only bits 0..63 of the transported integer matter *)
 Lemma fields_mod64 b : f_sign (b mod 2 ^ 64) = f_sign b /\ f_exp (b mod 2 ^ 64) = f_exp b /\ f_man (b mod 2 ^ 64) = f_man b.
@@ -479,6 +531,9 @@ Print Assumptions decode_bits_XFin.
 Print Assumptions decode_bits_XInf.
 Print Assumptions decode_bits_XNaN.
 Print Assumptions bits_join_fields.
+Print Assumptions dyadic_reduced.
+Print Assumptions decode_bits_reduced.
+Print Assumptions decode_bits_canonical.
 Print Assumptions decode_bits_mod64.
 Print Assumptions decode_bits_XFin_shape.
 Print Assumptions pX_total.
